@@ -267,6 +267,32 @@ def run(ctx: Ctx):
                      "thread and blocks every later message")
             continue
         tr, h = catching
+        # a message taken off the queue is written or fails to encode - nothing else: from the
+        # dequeue every path back to the head of the loop passes the append or the handler of the
+        # encoding failure (a state test that `continue`s in between discards what send_message()
+        # accepted: e.g. the CEA queued just before the connection was marked CLOSING)
+        cons_d = f"{s.func.qualname}:dequeued-is-written"
+        ctx.inst(cons_d)
+        gw = cfg_of(s.func, inline=False)
+        deq = [x for x in gw.nodes if x.kind == "stmt" and any(
+            isinstance(c.func, ast.Attribute) and c.func.attr in ("get", "get_nowait")
+            and "queue" in ast.unparse(c.func.value).lower() for c in x.calls())]
+        app_n = [x for x in gw.nodes if x.kind == "stmt" and x.ast is s.stmt]
+        hnd_n = [x for x in gw.nodes if x.ast is h or (x.kind == "stmt" and any(x.ast is y for y in ast.walk(h)))]
+        heads = [x for x in gw.nodes if x.kind in ("loop", "test") and x.ast is not None
+                 and (x.ast is loop or x.ast is getattr(loop, "test", None))]
+        if deq and app_n and heads:
+            rr = gw.reach([d for x in deq for l, d in x.succ if l not in ("exc", "raise")],
+                          blocked=app_n + hnd_n + deq)
+            if any(hd in rr for hd in heads):
+                skip = sorted((x for x in rr if x.kind == "stmt" and isinstance(x.ast, ast.Continue)),
+                              key=lambda x: x.line)
+                ctx.fail(cons_d, gw.loc(skip[0]) if skip else s.func.loc(),
+                         "a message taken off the write queue can be passed over without being appended to the "
+                         "write buffer (a path from the dequeue back to the loop avoids the append and the "
+                         "encoding-failure handler): what send_message() accepted is silently discarded - e.g. "
+                         "the CEA / DPA queued just before the connection was marked CLOSING",
+                         expected="dequeue -> append | encoding failure", observed="a path around both")
         for x in A.stmts_walk(h.body):
             if isinstance(x, (ast.Break, ast.Return, ast.Raise)):
                 ctx.fail(cons, f"{s.func.module.relpath}:{x.lineno}",
@@ -307,6 +333,51 @@ def run(ctx: Ctx):
         ctx.fail("SOFT_SOCKET_FAILURES", node.relpath + ":1",
                  f"SOFT_SOCKET_FAILURES lacks {sorted(need - names)}: a transient send "
                  f"failure would close the connection and lose queued bytes")
+
+    # ... and the I/O loop consults it: where a recv()/send() failure makes it close the
+    # connection, the errno has been looked up in SOFT_SOCKET_FAILURES and is not in it.  (The
+    # classes BlockingIOError / InterruptedError cover EAGAIN and EINTR only: ENOBUFS and ENOSR -
+    # the transient "no buffer space" of a loaded host - have no class of their own.)
+    nc_ = model.cls("node.node", "Node")
+    hc_ = nc_.methods.get("_handle_connections")
+    if hc_ is None:
+        ctx.error("Node._handle_connections not found")
+        return
+    par_ = A.parents(hc_.node)
+    n_io = 0
+    for tr in [x for x in A.walk_no_nested(hc_.node) if isinstance(x, ast.Try)]:
+        io = [c for b in tr.body for c in ast.walk(b) if isinstance(c, ast.Call) and isinstance(c.func, ast.Attribute)
+              and c.func.attr in ("send", "sctp_send", "recv")]
+        if not io:
+            continue
+        n_io += 1
+        what = io[0].func.attr
+        cons = f"_handle_connections:{'recv' if what == 'recv' else 'send'}-failure#soft-set-consulted"
+        ctx.inst(cons)
+        for h in tr.handlers:
+            for c in [c for b in h.body for c in ast.walk(b) if isinstance(c, ast.Call)
+                      and (A.call_name(c).endswith(".close") or A.call_name(c) == "self.close_connection_socket")]:
+                ok = False
+                cur = c
+                while cur in par_ and cur is not h:
+                    p_ = par_[cur]
+                    if isinstance(p_, ast.If) and "SOFT_SOCKET_FAILURES" in ast.unparse(p_.test):
+                        t = p_.test
+                        neg = isinstance(t, ast.Compare) and isinstance(t.ops[0], ast.NotIn)
+                        pos = isinstance(t, ast.Compare) and isinstance(t.ops[0], ast.In)
+                        in_body = any(cur is b or cur in list(ast.walk(b)) for b in p_.body)
+                        if (pos and not in_body) or (neg and in_body):
+                            ok = True
+                    cur = p_
+                if not ok:
+                    ctx.fail(cons, hc_.loc(c), f"a failed {what}() closes the connection (`{ast.unparse(c)[:50]}`) "
+                             f"without the errno having been found outside SOFT_SOCKET_FAILURES: a transient "
+                             f"failure such as ENOBUFS / ENOSR (no exception class of its own) is treated as fatal, "
+                             f"the connection is closed and the bytes still queued for it are never sent",
+                             expected="close only under `errno not in SOFT_SOCKET_FAILURES`")
+                    break
+    if n_io < 2:
+        ctx.error(f"only {n_io} try statements around recv()/send() found in _handle_connections (expected >= 2)")
 
 
 def _shape(st: ast.stmt, recv: str):
